@@ -18,6 +18,7 @@ package react
 
 import (
 	"context"
+	"errors"
 	"io"
 
 	"github.com/cloudwego/eino/components/model"
@@ -221,6 +222,14 @@ func NewAgent(ctx context.Context, config *AgentConfig) (_ *Agent, err error) {
 	}
 
 	toolsNodePreHandle := func(ctx context.Context, input *schema.Message, state *state) (*schema.Message, error) {
+		if input == nil {
+			// the node is re-run after an interrupt one of its tools asked for (compose.InterruptAndRerun): a re-run node
+			// is handed the zero input, the assistant message it works on is the last one recorded in the history
+			if len(state.Messages) == 0 {
+				return nil, errors.New("tools node is re-run but the history holds no assistant message")
+			}
+			return state.Messages[len(state.Messages)-1], nil
+		}
 		state.Messages = append(state.Messages, input)
 		state.ReturnDirectlyToolCallID = getReturnDirectlyToolCallID(input, toolReturnDirectly)
 		return input, nil
